@@ -89,3 +89,17 @@ PROPS["C08"] = dict(
     level_text="Sampled inputs; the oracle is exact for each (case, limit) pair because the stage sizes are known from the encoding side.",
     level_note="Trusted base: the C07 encoders (stage sizes) and decode() itself as the differential partner.",
 )
+
+PROPS["C04"] = dict(
+    title="The newest revision of an object always wins",
+    level="exploration",
+    technique="generated revision histories with a unique marker per (object, revision) written by an independent PDF writer; the library's get_object results (all presets) are compared offline with the generator's model after an independent strict reader has confirmed the model; recovery variant with damaged startxref/xref where 'last definition by offset' is the model; hook events tell whether the recovery path really ran",
+    stages=[py("pyref.checks.c04", args={"phase": "gen"}), rust(id="OBS", args={"dir": "{out}/cases"}), py("pyref.checks.c04", args={"phase": "check"})],
+    rule="history = base of 4-12 objects + 1-5 appended revisions; each revision independently a classic table or an xref stream; each touched object is redefined (plain or inside an object stream), freed, or re-added with a bumped generation; every fifth history is the recovery family (classic only, startxref/xref damaged). Non-trivial: the history contains a transition between storage forms (table<->stream, plain<->compressed, live<->free); distinct by history id; the evidence lists every (old form -> new form) transition observed",
+    assumptions=["pdfgen (independent writer) and pdf.Document (independent strict reader) agree with the model before the library is judged; a disagreement is a harness error (inconclusive)",
+                 "a freed object may read as null or as an error, never as a stale value"],
+    floors={"quick": {"evaluations": 1000, "distinct": 500, "counters": {"observations": 3000, "recovery_path_taken": 300}},
+            "thorough": {"evaluations": 30000, "distinct": 15000, "counters": {"observations": 100000}}},
+    level_text="Sampled histories with an exact oracle per object (unique markers make the observed revision unambiguous).",
+    level_note="Trusted base: pyref/pdfgen.py + pyref/pdf.py (anchored to qpdf fixtures for encryption, to the repository fixtures for reading).",
+)
